@@ -16,6 +16,8 @@ import NflowsModel.Lemmas.TailsWhole
 import NflowsModel.Lemmas.QuadInverseWhole
 import NflowsModel.Lemmas.StructureExecQuad
 import NflowsModel.Lemmas.StructureExecRQTails
+import NflowsModel.Lemmas.CubicInverseWhole
+import NflowsModel.Lemmas.LinWhole
 /-!
 # C02 — inverse undoes forward (both orders) and returns the negated log-abs-det
 
@@ -366,5 +368,49 @@ theorem exec_made_rq_tails_roundtrip (e : Float → ℝ) (c : ElCfg) (hc : NF.St
       inv.err = none ∧ fwd.err = none ∧ fwd.out = y
         ∧ (∀ b, b < B → fwd.ld[b]? = (inv.ld[b]?).map (fun l => -l))) :=
   NF.ARWhole.made_rq_tails_roundtrip_real e c hc a n hbuild hmult W bias B ctxv g
+
+/-! ## the executed cubic inverse (Cardano / trigonometric roots, closest-root selection, quadratic fallback, clamps) -/
+
+/-- **End to end, cubic spline**: where the quadratic fallback is not taken at the searched bin or that bin is exactly quadratic
+    (`ExactBin`) both round trips are exact; the log-det law `ld_inv(y) = −ld_fwd(inv y)` holds on the WHOLE box with no such
+    hypothesis; and in every case `|val(inv y) − y| < quadratic_threshold · (top − bottom)` — the approximation constant the
+    implementation declares, shown to be forced (`CubicInverseWhole.round_trip_counterexample`: a fallback bin with `a ≠ 0`
+    where the round trip is NOT exact over ℝ). -/
+theorem cubic_program_roundtrip (e : Float → ℝ) (c : CCfg) (uw uh : List ℝ) (udl udr : ℝ)
+    (hv : CubicWhole.CubicValid e c uw uh) (hc : CubicInverseWhole.InvConsts e c) :
+    (∀ y, e c.box.bottom ≤ y → y ≤ e c.box.top →
+        CubicInverseWhole.ExactBin e c uw uh udl udr (CubicInverseWhole.idxH e c uh (CubicInverseWhole.yn e c y)) →
+        CubicWhole.val e c uw uh udl udr (CubicInverseWhole.inv e c uw uh udl udr y) = y) ∧
+    (∀ y, e c.box.bottom ≤ y → y ≤ e c.box.top →
+        CubicInverseWhole.invLd e c uw uh udl udr y = - CubicWhole.ld e c uw uh udl udr (CubicInverseWhole.inv e c uw uh udl udr y)) ∧
+    (∀ y, e c.box.bottom ≤ y → y ≤ e c.box.top →
+        |CubicWhole.val e c uw uh udl udr (CubicInverseWhole.inv e c uw uh udl udr y) - y| < e c.thr * (e c.box.top - e c.box.bottom)) :=
+  ⟨fun y h0 h1 hex => CubicInverseWhole.val_inv hv hc y h0 h1 hex,
+   fun y h0 h1 => CubicInverseWhole.invLd_eq_neg_ld_always hv y h0 h1,
+   fun y h0 h1 => (CubicInverseWhole.val_inv_approx hv hc y h0 h1).2⟩
+
+/-- … and with every bin exact (`AllExact`, e.g. `quadratic_threshold` below every `|a_k| w_k³ / h_k`) the inverse program is the
+    inverse function on the closed boxes, both orders -/
+theorem cubic_program_roundtrip_exact (e : Float → ℝ) (c : CCfg) (uw uh : List ℝ) (udl udr : ℝ)
+    (hv : CubicWhole.CubicValid e c uw uh) (hc : CubicInverseWhole.InvConsts e c)
+    (hall : CubicInverseWhole.AllExact e c uw uh udl udr) :
+    (∀ y, e c.box.bottom ≤ y → y ≤ e c.box.top →
+        CubicWhole.val e c uw uh udl udr (CubicInverseWhole.inv e c uw uh udl udr y) = y) ∧
+    (∀ x, e c.box.left ≤ x → x ≤ e c.box.right →
+        CubicInverseWhole.inv e c uw uh udl udr (CubicWhole.val e c uw uh udl udr x) = x) :=
+  ⟨fun y h0 h1 => CubicInverseWhole.val_inv_all hv hc hall y h0 h1, fun x h0 h1 => CubicInverseWhole.inv_val_all hv hc hall x h0 h1⟩
+
+example : CubicInverseWhole.InvConsts CubicInverseWhole.eI CubicWhole.cNV := CubicInverseWhole.consts_example
+
+/-- **End to end, linear spline**: both round trips on the closed boxes (knots included) need no hypothesis beyond `LinValid`;
+    the log-det law needs the Python double `np.log(1/K)` that the forward program subtracts to be read as the real `log(1/K)`
+    (the inverse program computes `log(pdf·K)` in-tensor) -/
+theorem linear_program_roundtrip (e : Float → ℝ) (box : Box) (eps : Float) (up : List ℝ) (hv : LinWhole.LinValid e box eps up) :
+    (∀ y, e box.bottom ≤ y → y ≤ e box.top → LinWhole.val e box eps up (LinWhole.inv e box eps up y) = y) ∧
+    (∀ x, e box.left ≤ x → x ≤ e box.right → LinWhole.inv e box eps up (LinWhole.val e box eps up x) = x) ∧
+    (e (Float.log (1.0 / up.length.toFloat)) = Real.log (1 / (up.length : ℝ)) →
+      ∀ y, e box.bottom ≤ y → y ≤ e box.top →
+        LinWhole.invLd e box eps up y = - LinWhole.ld e box eps up (LinWhole.inv e box eps up y)) :=
+  ⟨LinWhole.val_inv hv, LinWhole.inv_val hv, fun hl y h0 h1 => LinWhole.invLd_eq_neg_ld hv hl y h0 h1⟩
 
 end Properties.C02
